@@ -1561,6 +1561,29 @@ impl UsageValidator {
                 }
                 change = count != sema.used.len();
             }
+            // rules and tokens that are only referenced from a part are used as well,
+            // the part rules themselves stay unmarked if the start rule does not reach them
+            let part_roots = sema
+                .parts
+                .iter()
+                .filter(|part| !sema.used.contains(&part.syntax()))
+                .copied()
+                .collect::<Vec<_>>();
+            let mut change = !part_roots.is_empty();
+            while change {
+                let count = sema.used.len();
+                for rule in file.rule_decls(cst) {
+                    if (sema.used.contains(&rule.syntax()) || part_roots.contains(&rule))
+                        && let Some(regex) = rule.regex(cst)
+                    {
+                        Self::set_regex(cst, sema, regex);
+                    }
+                }
+                change = count != sema.used.len();
+            }
+            for part in part_roots {
+                sema.used.remove(&part.syntax());
+            }
             for rule in file.rule_decls(cst) {
                 if !sema.used.contains(&rule.syntax()) && !sema.parts.contains(&rule) {
                     diags.push(Diagnostic::unused_rule(&rule.span(cst)));
